@@ -99,6 +99,8 @@ Increasing(s) == \A i, j \in 1..Len(s) : i < j => s[i] < s[j]
 (* sequences, not sets: handing out the same value twice must show *)
 StrictlyIncreasing == Increasing(issuedEpoch)
 AboveBeforeRestart == \A b \in Buckets : Increasing(issuedBy[b])
+(* witness configurations: every behaviour that breaks the property is printed as a script for the real code *)
+WitnessScripts == AboveBeforeRestart \/ (PrintT("WITNESS " \o ToJson(hist)) /\ FALSE)
 PersistedCoversIssued == \A b \in Buckets : isopen[b] => persisted[b] >= MaxOf(issuedBy[b])
 
 (* behaviour generation *)
